@@ -63,8 +63,9 @@ class Engine(StmtMixin, LoopMixin, CallMixin, Expr2Mixin, ExprMixin, EngineBase)
                     z3.ForAll([o], G(o, 0) == 0, patterns=[G(o, 0)]),
                     z3.ForAll([o, t], z3.Implies(t >= 0, G(o, t + 1) == G(o, t) + xt), patterns=[G(o, t + 1), z3.Select(l.arrs[0].decl()(o), t)])))
                 self._psums[gkey] = G
-                H = self._psum_hub(l, field, srt)
-                self.add_background(('pf-hub', gkey), z3.ForAll([o, t], G(o, t) == H(*[a.decl()(o) for a in l.arrs], t), patterns=[G(o, t)]))
+                fdecls = [a.decl() for a in l.arrs]
+                self._psum_register(l, field, srt, gkey,
+                                    lambda H, o=o, t=t, G=G, fdecls=fdecls: z3.ForAll([o, t], G(o, t) == H(*[d(o) for d in fdecls], t), patterns=[G(o, t)]))
             G = self._psums[gkey]
             owner = l.arrs[0].arg(0)
             return lambda tt: G(owner, tt)
@@ -87,10 +88,21 @@ class Engine(StmtMixin, LoopMixin, CallMixin, Expr2Mixin, ExprMixin, EngineBase)
                                                  z3.ForAll([t], z3.Implies(t >= 0, Pf(t + 1) == Pf(t) + xt),
                                                            patterns=pats)))
         if l.arrs:
-            H = self._psum_hub(l, field, srt)
-            self.add_background(('pf-hub', key), z3.ForAll([t], Pf(t) == H(*l.arrs, t), patterns=[Pf(t)]))
+            arrs = l.arrs
+            self._psum_register(l, field, srt, key, lambda H, t=t, Pf=Pf, arrs=arrs: z3.ForAll([t], Pf(t) == H(*arrs, t), patterns=[Pf(t)]))
         self._psums[key] = Pf
         return Pf
+
+    def _psum_register(self, l, field, srt, key, mk_axiom):
+        """tie a prefix-sum function to the hub - but only once a SECOND prefix-sum function of the same kind exists in this verification
+        (with a single one there is nothing to connect, and the extra equalities cost solver time)"""
+        hk = ('pf-hubfn', field, tuple(str(a.sort()) for a in l.arrs), str(srt))
+        pend = self._psums.setdefault(('pf-pending',) + hk[1:], [])
+        pend.append((key, mk_axiom))
+        if len(pend) >= 2:
+            H = self._psum_hub(l, field, srt)
+            for k2, mk in pend:
+                self.add_background(('pf-hub', k2), mk(H))
 
     def _psum_hub(self, l: VList, field, srt):
         """prefix sums are a function of the ARRAY (and the index): every prefix-sum function is tied to one uninterpreted hub function of
@@ -176,10 +188,15 @@ class Engine(StmtMixin, LoopMixin, CallMixin, Expr2Mixin, ExprMixin, EngineBase)
             o = z3.Const(fresh_name('ci_o'), Ref)
             st = State()
             st.frames[0] = Frame(None, None, None)
-            term = inv(self, view(self, st, VObj(o, (cname,))))
+            ov = view(self, st, VObj(o, (cname,)))
+            trig = None
+            if isinstance(inv, tuple):
+                inv, trig = inv
+            term = inv(self, ov)
             subs = [cname] + sorted(k for k in self.repo.class_index if k != cname and self.repo.is_subclass(k, cname))
             guard = z3.Or(*[cls_of(o) == self.cls_id(c) for c in subs])
-            self.add_background(('class-inv', cname), z3.ForAll([o], z3.Implies(guard, term), patterns=[cls_of(o)]))
+            pats = trig(self, ov) if trig is not None else [cls_of(o)]       # instantiate only where the fields the invariant speaks about are mentioned
+            self.add_background(('class-inv', cname), z3.ForAll([o], z3.Implies(guard, term), patterns=pats))
             self.assumptions.add(f"class invariant of {cname} (obligation of {cname}.__init__)")
 
     # ------------------------------------------------------------------ terminals
